@@ -68,6 +68,9 @@ func newSchema(table string, master []sqliteMaster) (*Schema, error) {
 	}
 
 	st := newCreateTable(ct)
+	if st == nil {
+		return nil, errors.New("unsupported CREATE TABLE statement")
+	}
 
 	for _, m := range master {
 		if m.typ == "index" && m.tblName == n && m.sql != "" {
@@ -84,7 +87,8 @@ func newSchema(table string, master []sqliteMaster) (*Schema, error) {
 }
 
 // transform a `create table` statement into a Schema, which knows which
-// indexes are used
+// indexes are used. Returns nil if a constraint names a column the table
+// doesn't have (SQLite refuses those: "no such column").
 func newCreateTable(ct sql.CreateTableStmt) *Schema {
 	st := &Schema{
 		Table:        ct.Table,
@@ -163,6 +167,18 @@ func newCreateTable(ct sql.CreateTableStmt) *Schema {
 	}
 constraint:
 	for _, c := range ct.Constraints {
+		var cols []sql.IndexedColumn
+		switch c := c.(type) {
+		case sql.TablePrimaryKey:
+			cols = c.IndexedColumns
+		case sql.TableUnique:
+			cols = c.IndexedColumns
+		}
+		for _, co := range cols {
+			if co.Column != "" && st.column(co.Column) == nil {
+				return nil
+			}
+		}
 		switch c := c.(type) {
 		case sql.TablePrimaryKey:
 			if !ct.WithoutRowid && len(c.IndexedColumns) == 1 {
